@@ -10,7 +10,13 @@
 // Script steps (J = run id = order in which routine functions were entered, I = index of the I-th
 // executed addref):
 //
-//	config plain|rc delay|nodelay noretry|retry N   must be the first step (default plain nodelay noretry)
+//	config plain|rc delay|nodelay noretry|retry N|fresh [cb setkey|getkey|removekey]
+//	                          must be the first step (default plain nodelay noretry). `retry N`: WithBackoff with a
+//	                          scripted backoff (D, N times, then Stop); `fresh`: WithRetry with the library's backoff
+//	                          config (constant D, MaxElapsedTime 3*D = one advance: a record's backoff says Stop once
+//	                          the epoch of its construction / last Reset has ended). `cb OP`: an exit callback
+//	                          (WithExitCb) that calls OP(key, …) on the same object for every routine that returned
+//	                          ok or an error, logged as a call of its own (inv/ret) from inside the callback
 //	setctx C restart|norestart    C = 0 is the nil context, 1..3 are distinct live contexts
 //	setkey K start|nostart | removekey K | synckeys restart|norestart K... | getkey K | getkeys | getkeysdata
 //	reset K | restart K | resetall | restartall
@@ -33,6 +39,8 @@ import (
 	"errors"
 	"fmt"
 	"math/rand"
+	"os"
+	"runtime/pprof"
 	"sort"
 	"strconv"
 	"strings"
@@ -40,6 +48,7 @@ import (
 	"sync/atomic"
 	"time"
 
+	ubackoff "github.com/aperturerobotics/util/backoff"
 	"github.com/aperturerobotics/util/keyed"
 	cbackoff "github.com/cenkalti/backoff/v4"
 
@@ -50,6 +59,9 @@ import (
 
 // D is the one duration used for the release delay and every backoff interval.
 const D = 20 * time.Millisecond
+
+// hangLimit is how long a call may take before it is taken to be blocked for good (exit-callback scripts only)
+const hangLimit = time.Second
 
 // burstLimit is the longest a burst of calls may take (first call after an advance → next advance line).
 const burstLimit = 12 * time.Millisecond
@@ -128,18 +140,33 @@ func exec(script []string, opt comp.Options) (res comp.Result) {
 	tags := tagger{set: tagSet, mu: &tagMu}
 	h := hook.Install(opt.Seed, hook.Perturb{Prob: 0.35, MaxSleep: 150 * time.Microsecond})
 	defer h.Uninstall()
+	// a scenario takes well under 10s; one that does not end is a defect of the harness: fail loudly, with
+	// the goroutines, rather than stall the check
+	wd := time.AfterFunc(90*time.Second, func() {
+		fmt.Fprintf(os.Stderr, "keyed harness: scenario did not end within 90s: %v\n", script)
+		_ = pprof.Lookup("goroutine").WriteTo(os.Stderr, 1)
+		os.Exit(3)
+	})
+	defer wd.Stop()
 	rng := rand.New(rand.NewSource(opt.Seed ^ 0x6b657965))
 
 	// ---- configuration
-	rc, delay, retry := false, false, -1
+	rc, delay, retry, fresh, cbKind := false, false, -1, false, ""
 	if len(script) > 0 {
 		if f := strings.Fields(script[0]); len(f) >= 4 && f[0] == "config" {
 			rc, delay = f[1] == "rc", f[2] == "delay"
 			if f[3] == "retry" && len(f) >= 5 {
 				retry, _ = strconv.Atoi(f[4])
 			}
+			fresh = f[3] == "fresh"
+			for i := 3; i+1 < len(f); i++ {
+				if f[i] == "cb" {
+					cbKind = f[i+1]
+				}
+			}
 		}
 	}
+	timed := delay || retry >= 0 || fresh
 	cfgLine := "config "
 	if rc {
 		cfgLine += "rc "
@@ -153,7 +180,10 @@ func exec(script []string, opt comp.Options) (res comp.Result) {
 	} else {
 		cfgLine += "nodelay "
 	}
-	if retry >= 0 {
+	if fresh {
+		cfgLine += "fresh"
+		tags.Add("retry-fresh")
+	} else if retry >= 0 {
 		cfgLine += fmt.Sprintf("retry %d", retry)
 		tags.Add("retry")
 	} else {
@@ -207,11 +237,28 @@ func exec(script []string, opt comp.Options) (res comp.Result) {
 	if delay {
 		opts = append(opts, keyed.WithReleaseDelay[int, int](D))
 	}
-	if retry >= 0 {
+	if fresh {
+		ms := uint32(D / time.Millisecond)
+		opts = append(opts, keyed.WithRetry[int, int](&ubackoff.Backoff{
+			BackoffKind: ubackoff.BackoffKind_BackoffKind_EXPONENTIAL,
+			Exponential: &ubackoff.Exponential{InitialInterval: ms, Multiplier: 1, MaxInterval: ms, MaxElapsedTime: 3 * ms},
+		}))
+	} else if retry >= 0 {
 		n := retry
 		opts = append(opts, keyed.WithBackoff[int, int](func(int) cbackoff.BackOff { return &scriptedBackoff{n: n} }))
 	}
 	var a api
+	// exit callback that calls back into the same object (as a caller of its own)
+	var cbOff, hung atomic.Bool
+	var cbCall func(key int)
+	if cbKind != "" {
+		opts = append(opts, keyed.WithExitCb[int, int](func(key int, _ keyed.Routine, _ int, err error) {
+			if cbOff.Load() || hung.Load() || errors.Is(err, context.Canceled) {
+				return
+			}
+			cbCall(key)
+		}))
+	}
 	if rc {
 		k := keyed.NewKeyedRefCount(ctor, opts...)
 		a = api{setContext: k.SetContext, getKeys: k.GetKeys, getKeysWithData: k.GetKeysWithData, getKey: k.GetKey,
@@ -248,7 +295,7 @@ func exec(script []string, opt comp.Options) (res comp.Result) {
 	// call wraps one API call: inv line, the call (panics are results), ret line.
 	call := func(inv string, f func() string) {
 		id := log.Inv("%s", inv)
-		out := func() (s string) {
+		run := func() (s string) {
 			defer func() {
 				if p := recover(); p != nil {
 					s = "panic"
@@ -256,8 +303,76 @@ func exec(script []string, opt comp.Options) (res comp.Result) {
 				}
 			}()
 			return f()
-		}()
-		log.Ret(id, "%s", out)
+		}
+		if cbKind == "" {
+			log.Ret(id, "%s", run())
+			return
+		}
+		// with re-entrant exit callbacks a call may block for good (a callback that runs with the mutex held):
+		// the call is abandoned after hangLimit, no ret line is logged and the script stops
+		ch := make(chan string, 1)
+		go func() { ch <- run() }()
+		select {
+		case out := <-ch:
+			log.Ret(id, "%s", out)
+		case <-time.After(hangLimit):
+			hung.Store(true)
+			tags.Add("call-hung")
+		}
+	}
+	// a callback that is late may make its call during the sleep of an `advance` (between the `advance` and
+	// the `quiesce` line): timers it arms then expire within the epoch — the run breaks the epoch discipline.
+	// (While the call is in progress the `quiesce` line cannot be logged, so `advancing` is read reliably.)
+	var advancing, lateCb atomic.Bool
+	inEpoch := func() {
+		if advancing.Load() {
+			lateCb.Store(true)
+		}
+	}
+	cbCall = func(key int) {
+		tags.Add("exit-cb-reenters")
+		switch {
+		case cbKind == "setkey" && !rc:
+			call(fmt.Sprintf("setkey %d nostart", key), func() string {
+				inEpoch()
+				d, e := a.setKey(key, false)
+				return fmt.Sprintf("de %d %s", d, bs(e))
+			})
+		case cbKind == "removekey" && !rc:
+			call(fmt.Sprintf("removekey %d", key), func() string { inEpoch(); return "bool " + bs(a.removeKey(key)) })
+		case cbKind == "removekey" && rc:
+			call(fmt.Sprintf("rcremove %d", key), func() string { inEpoch(); return "bool " + bs(a.rcRemove(key)) })
+		default:
+			call(fmt.Sprintf("getkey %d", key), func() string {
+				inEpoch()
+				d, e := a.getKey(key)
+				return fmt.Sprintf("de %d %s", d, bs(e))
+			})
+		}
+	}
+	// logIdle logs a line that claims that no call is in progress (`advance`, `quiesce`) atomically with an
+	// empty set of pending calls; a call of an exit callback that is in flight is waited for. false: a call
+	// did not return within hangLimit (nothing is logged)
+	logIdle := func(line string) bool {
+		deadline := time.Now().Add(hangLimit)
+		for {
+			ok := false
+			log.With(func(p []int) []string {
+				if len(p) == 0 {
+					ok = true
+					return []string{line}
+				}
+				return nil
+			})
+			if ok {
+				return true
+			}
+			if hung.Load() || time.Now().After(deadline) {
+				hung.Store(true)
+				return false
+			}
+			time.Sleep(50 * time.Microsecond)
+		}
 	}
 	activeOf := func(key int) []*run { // runs not yet told to return (key < 0: all)
 		mu.Lock()
@@ -329,6 +444,7 @@ func exec(script []string, opt comp.Options) (res comp.Result) {
 	// marked unstable and not compared, like a burst that took too long.
 	const stallLimit = 2 * time.Millisecond
 	var lastStall atomic.Int64
+	var bigStall atomic.Bool
 	canaryStop := make(chan struct{})
 	defer close(canaryStop)
 	go func() {
@@ -340,8 +456,11 @@ func exec(script []string, opt comp.Options) (res comp.Result) {
 			}
 			t := time.Now()
 			time.Sleep(250 * time.Microsecond)
-			if time.Since(t) > 250*time.Microsecond+stallLimit {
+			if late := time.Since(t) - 250*time.Microsecond; late > stallLimit {
 				lastStall.Store(time.Now().UnixNano())
+				if late > hangLimit/10 {
+					bigStall.Store(true)
+				}
 			}
 		}
 	}()
@@ -360,7 +479,7 @@ func exec(script []string, opt comp.Options) (res comp.Result) {
 		if lastStall.Load() > holdStart.UnixNano() || time.Since(t0) > 6*time.Millisecond+stallLimit {
 			res.Unstable = true
 		}
-		log.Add("quiesce")
+		logIdle("quiesce")
 	}
 	waitHit := func(g hook.Gate, d time.Duration) <-chan struct{} {
 		c := make(chan struct{})
@@ -441,6 +560,14 @@ func exec(script []string, opt comp.Options) (res comp.Result) {
 		f := strings.Fields(step)
 		if len(f) == 0 || (si == 0 && f[0] == "config") {
 			continue
+		}
+		if hung.Load() {
+			break
+		}
+		if (fresh || cbKind != "") && f[0] == "advhold" {
+			// an exit bookkeeping held at the gate over the sleep would make the backoff's clock run out;
+			// a call of an exit callback held at the gate would be pending at the `advance` line
+			f[0] = "advance"
 		}
 		arg := func(i int) string {
 			if i < len(f) {
@@ -677,11 +804,13 @@ func exec(script []string, opt comp.Options) (res comp.Result) {
 			}
 			advances++
 			openGate()
-			if (delay || retry >= 0) && time.Since(burstStart) > burstLimit {
+			if timed && time.Since(burstStart) > burstLimit {
 				res.Unstable = true
 			}
+			if !logIdle("advance") {
+				continue
+			}
 			g := h.AddGate("lock-enter", nil, 1)
-			log.Add("advance")
 			time.Sleep(3 * D)
 			if g.WaitHit(time.Millisecond) {
 				// a timer callback (or an exit bookkeeping) has fired and waits for the mutex
@@ -692,7 +821,7 @@ func exec(script []string, opt comp.Options) (res comp.Result) {
 			} else {
 				g.Open()
 				comp.WaitQuiet(log, opt.Grace, 10*opt.Grace)
-				log.Add("quiesce")
+				logIdle("quiesce")
 			}
 			pendingRemoval = map[int]bool{}
 			burstStart = time.Now()
@@ -702,15 +831,19 @@ func exec(script []string, opt comp.Options) (res comp.Result) {
 			}
 			advances++
 			openGate()
-			if (delay || retry >= 0) && time.Since(burstStart) > burstLimit {
+			if timed && time.Since(burstStart) > burstLimit {
 				// the epoch discipline was violated (machine too slow): not comparable
 				res.Unstable = true
 			}
-			log.Add("advance")
+			advancing.Store(true)
+			if !logIdle("advance") {
+				continue
+			}
 			before := len(runs)
 			time.Sleep(3 * D)
 			comp.WaitQuiet(log, opt.Grace, 10*opt.Grace)
-			log.Add("quiesce")
+			logIdle("quiesce")
+			advancing.Store(false)
 			mu.Lock()
 			if len(runs) > before {
 				tags.Add("started-during-advance")
@@ -724,10 +857,22 @@ func exec(script []string, opt comp.Options) (res comp.Result) {
 		}
 	}
 	openGate()
-	if (delay || retry >= 0) && time.Since(burstStart) > burstLimit {
+	if timed && time.Since(burstStart) > burstLimit {
 		res.Unstable = true
 	}
 	comp.WaitQuiet(log, 2*time.Millisecond, 100*time.Millisecond)
+	if lateCb.Load() {
+		res.Unstable = true
+	}
+	if hung.Load() {
+		// a call has not returned for hangLimit: the history ends with a quiescence point at which the call is
+		// still pending (unless the machine itself stalled: then the run says nothing)
+		if bigStall.Load() {
+			res.Unstable = true
+		}
+		log.Add("quiesce")
+	}
+	cbOff.Store(true)
 	lines := log.Lines()
 
 	// ---- wind down: no context, every routine told to return, timers left to expire
@@ -766,7 +911,7 @@ func exec(script []string, opt comp.Options) (res comp.Result) {
 	case <-time.After(2 * time.Second):
 		tags.Add("leaked-goroutine")
 	}
-	if delay || retry >= 0 {
+	if timed {
 		time.Sleep(D + 2*time.Millisecond) // let armed timers expire (their callbacks find nothing to do)
 	}
 	for _, l := range lines {
@@ -790,8 +935,9 @@ func gen(rng *rand.Rand, tier string) []string {
 	delay := rng.Intn(2) == 0
 	retry := -1
 	if rng.Intn(2) == 0 {
-		retry = []int{0, 1, 2, 50}[rng.Intn(4)]
+		retry = []int{0, 1, 2, 50, -2}[rng.Intn(5)]
 	}
+	fresh := retry == -2 // WithRetry with the library's backoff config
 	cfg := "config "
 	if rc {
 		cfg += "rc "
@@ -803,10 +949,16 @@ func gen(rng *rand.Rand, tier string) []string {
 	} else {
 		cfg += "nodelay "
 	}
-	if retry >= 0 {
+	if fresh {
+		cfg += "fresh"
+	} else if retry >= 0 {
 		cfg += fmt.Sprintf("retry %d", retry)
 	} else {
 		cfg += "noretry"
+	}
+	if rng.Intn(10) == 0 {
+		// an exit callback that calls back into the object
+		cfg += " cb " + []string{"setkey", "getkey", "removekey"}[rng.Intn(3)]
 	}
 	out := []string{cfg}
 	nkeys := 2 + rng.Intn(4) // key universe 1..nkeys (≤ 5)
@@ -832,6 +984,16 @@ func gen(rng *rand.Rand, tier string) []string {
 		if t := rng.Intn(100); t < 9 {
 			k := key()
 			switch {
+			case fresh && t < 5:
+				// a key that is new (or reset) in this epoch fails in it: its own backoff has not run out
+				if rc {
+					out = append(out, addref(k))
+				} else {
+					out = append(out, []string{fmt.Sprintf("setkey %d start", k), fmt.Sprintf("reset %d", k), fmt.Sprintf("synckeys restart %d", k)}[rng.Intn(3)])
+				}
+				out = append(out, "settle", fmt.Sprintf("retk %d err", k), "advance", "getkeys")
+				inBurst = 1
+				continue
 			case delay && retry > 0 && !rc && t < 3:
 				// the routine fails while its key is leaving; a non-restarting re-request keeps the retry
 				out = append(out, fmt.Sprintf("setkey %d start", k), "settle", fmt.Sprintf("removekey %d", k),
@@ -948,6 +1110,15 @@ func init() {
 	comp.Register(&comp.Component{
 		Name: "keyed", Model: "keyed", Gen: gen, Exec: exec,
 		Corpus: [][]string{
+			// C07-c3: WithRetry gives every record its own backoff object: a key that is new in an epoch and fails in
+			// it is retried although another key's backoff has run out; so is a key after ResetRoutine
+			{"config plain nodelay fresh", "setctx 1 norestart", "setkey 1 start", "settle", "retk 1 err", "advance", "retk 1 err", "advance", "setkey 2 start", "settle", "retk 2 err", "advance", "getkeys", "retk 2 ok", "advance"},
+			{"config plain nodelay fresh", "setctx 1 norestart", "setkey 1 start", "advance", "advance", "retk 1 err", "advance", "reset 1", "settle", "retk 1 err", "advance", "getkeysdata", "probeall"},
+			{"config rc delay fresh", "setctx 1 norestart", "addref 1", "advance", "retk 1 ok", "settle", "setkey 1 start", "advance", "addref 2", "settle", "retk 2 err", "advance", "getkeys"},
+			// C07-c2: exit callbacks run without the mutex: a callback may call back into the object
+			{"config plain nodelay retry 50 cb setkey", "setctx 1 norestart", "setkey 1 start", "settle", "retk 1 err", "settle", "advance", "getkeys", "retk 1 ok", "settle", "removekey 1", "advance", "getkeys"},
+			{"config plain delay noretry cb removekey", "setctx 1 norestart", "setkey 1 start", "setkey 2 start", "settle", "retk 1 ok", "settle", "getkeys", "advance", "getkeys", "retk 2 err", "advance", "getkeysdata"},
+			{"config rc nodelay retry 1 cb getkey", "setctx 1 norestart", "addref 1", "settle", "retk 1 err", "advance", "retk 1 err", "advance", "getkeys"},
 			// D5: delayed removal, then SyncKeys keeps the key
 			{"config plain delay noretry", "setctx 1 norestart", "setkey 1 start", "removekey 1", "synckeys norestart 1", "advance", "getkeys", "getkey 1"},
 			// delayed removal on both sides of advance
